@@ -1825,10 +1825,10 @@ fn run(a: &Args) {
                     let mut want_log = vec![];
                     let want = ref_call(ast, req, &mut want_log);
                     if !matches!(&r, Ok(Drv::Done(x)) if *x == want) {
-                        rep.t3("C11", &format!("composition-result: call({req}) of {ast} resolved to {res}, the reference composition is {want:?}"));
                         if has_wrapper(ast) && side_call(ast, req, w.get()) == Some(want) {
                             rep.t3("C11", &format!("wrapper-not-transparent: call({req}) of {ast}{held} {}, differs from the unwrapped tree: the real {} yields {want:?}", if r.is_err() { format!("panicked ({})", r.as_ref().err().unwrap()) } else { format!("resolved to {res}") }, unwrapped(ast)));
                         }
+                        rep.t3("C11", &format!("composition-result: call({req}) of {ast} resolved to {res}, the reference composition is {want:?}"));
                     }
                     let got_log: Vec<Ev> = log
                         .iter()
@@ -1914,11 +1914,11 @@ fn run(a: &Args) {
                             _ => false,
                         };
                         if !agrees {
-                            rep.t3("C11", &format!("factory-result: {what} resolved to {res}, the reference is {:?}", want.res.as_ref().map(|s| s.to_string())));
                             let want_unit = want.res.as_ref().map(|_| ()).map_err(|e| *e);
                             if fac_has_ptr(&f) && side_fac(&f, cfg, w.get()) == Some(want_unit) {
                                 rep.t3("C11", &format!("wrapper-not-transparent: {what} {}, differs from the unwrapped tree: the real {} yields {want_unit:?}", if r.is_err() { format!("panicked ({})", r.as_ref().err().unwrap()) } else { format!("resolved to {res}") }, fac_unwrapped(&f)));
                             }
+                            rep.t3("C11", &format!("factory-result: {what} resolved to {res}, the reference is {:?}", want.res.as_ref().map(|s| s.to_string())));
                         }
                         let got_news: Vec<(u32, u32)> = log.iter().filter_map(|e| if let Ev::New(i, c) = e { Some((*i, *c)) } else { None }).collect();
                         // which factories are asked, and with what — not in which order
